@@ -546,12 +546,13 @@ func (ex *Exec) runFrame(fr *frame) {
 			}
 			if p.where == "" {
 				p.where = ex.where(fr)
+				p.stack = ex.stackNames(fr)
 			}
 			fr.panicking = true
 			fr.panic = p
 		default:
 			if _, ok := r.(runtime.Error); ok || r != nil {
-				panic(engineError(fmt.Sprintf("%v (in %s at %s)", r, fr.fn, ex.where(fr))))
+				panic(engineError(fmt.Sprintf("%v (in %s at %s; stack %s)", r, fr.fn, ex.where(fr), ex.stackNames(fr))))
 			}
 		}
 		fr.runDefers()
